@@ -391,6 +391,9 @@ def sim_case(draw):
         "mu": draw(fl(-2, 2)), "nex": draw(st.integers(1, 7)), "vacc": draw(fl(10, 500)), "species_n": draw(st.integers(1, 3)),
         "max_cycles": draw(st.integers(1, 5)), "seed": draw(st.sampled_from([0, 1, 42, 2 ** 32 + 5, 2 ** 64 + 3])), "steps": draw(st.integers(0, 4)),
         "logging_interval": draw(st.integers(1, 5)),
+        # move-table entries: names (incl. the drivers' own default names) and per-entry interval / weight / minimum count
+        "default_names": draw(st.booleans()),
+        "table": [[draw(st.integers(1, 4)), draw(fl(0.05, 5.0)), draw(st.integers(0, 1))] for _ in range(2)],
     }
 
 
@@ -407,25 +410,33 @@ def build_sim(case):
     atoms.calc = ModelCalc("pair", {"k": 0.05, "center": (2.5, 2.5, 2.5), "a": 0.4, "s": 1.6, "b": 0.002})
     kw = {"seed": case["seed"], "max_cycles": case["max_cycles"], "logging_interval": case["logging_interval"]}
     d = case["driver"]
+    tb = case.get("table") or [[1, 1.0, 0], [1, 1.0, 0]]
+    dn = case.get("default_names", False)
+    kw["max_cycles"] = max(kw["max_cycles"], tb[0][2] + tb[1][2])
+
+    def add(mc, mv, name, default_name, i):
+        mc.add_move(mv, name=(default_name if dn else name), interval=tb[i][0], probability=tb[i][1], minimum_count=tb[i][2])
+
     if d == "Canonical":
         mc = canonical.Canonical(atoms, temperature=case["T"], **kw)
-        mc.add_move(DisplacementMove(np.arange(3)), name="d")
+        add(mc, DisplacementMove(np.arange(3)), "zz_d", "default_displacement_move", 0)
     elif d == "HamiltonianCanonical":
         mc = canonical.HamiltonianCanonical(atoms, temperature=case["T"], **kw)
-        mc.add_move(HamiltonianDisplacementMove(), name="h")
+        add(mc, HamiltonianDisplacementMove(), "h", "default_displacement_move", 0)
     elif d == "Isobaric":
         mc = isobaric.Isobaric(atoms, temperature=case["T"], pressure=case["P"], **kw)
-        mc.add_move(CellMove(), name="c")
-        mc.add_move(DisplacementMove(np.arange(3)), name="d")
+        add(mc, CellMove(), "zz_c", "default_cell_move", 0)
+        add(mc, DisplacementMove(np.arange(3)), "aa_d", "default_displacement_move", 1)
     elif d == "Isotension":
         mc = isotension.Isotension(atoms, temperature=case["T"], pressure=case["P"], external_stress=np.array(case["stress"]), **kw)
-        mc.add_move(CellMove(), name="c")
+        add(mc, CellMove(), "zz_c", "default_cell_move", 0)
+        add(mc, DisplacementMove(np.arange(3)), "aa_d", "default_displacement_move", 1)
     else:
         sp = Atoms("Ar" * case["species_n"], positions=[[0, 0, 1.2 * i] for i in range(case["species_n"])])
         mc = gcmc.GrandCanonical(atoms, exchange_atoms=sp, temperature=case["T"], chemical_potential=case["mu"], number_of_exchange_particles=case["nex"], **kw)
         mc.accessible_volume = case["vacc"]
-        mc.add_move(ExchangeMove(np.arange(3)), name="x")
-        mc.add_move(DisplacementMove(np.arange(3)), name="d")
+        add(mc, ExchangeMove(np.arange(3)), "zz_x", "default_exchange_move", 0)
+        add(mc, DisplacementMove(np.arange(3)), "aa_d", "default_displacement_move", 1)
     return mc
 
 
@@ -442,7 +453,7 @@ def run_sim(case):
             mc.run(case["steps"])
     except Exception as exc:
         return {"labels": labels + ["run-raised"], "nontrivial": False, "violation": None, "discard": True, "summary": repr(exc)}
-    out = {"labels": labels, "nontrivial": True, "key": f"{case['driver']}|{case['steps']}|{case['max_cycles']}|{case['seed']}|{case['logging_interval']}", "violation": None}
+    out = {"labels": labels + (["default-names"] if case.get("default_names") else []), "nontrivial": True, "key": f"{case['driver']}|{case['steps']}|{case['max_cycles']}|{case['seed']}|{case['logging_interval']}|{case.get('default_names')}|{case.get('table')}", "violation": None}
     try:
         with warnings.catch_warnings():
             warnings.simplefilter("ignore")
@@ -478,9 +489,18 @@ def run_sim(case):
         if len(a) != len(b) or not np.array_equal(a.numbers, b.numbers) or not np.array_equal(a.positions, b.positions):
             out["violation"] = {"kind": "sim-setting-lost:GrandCanonical:exchange_atoms", "detail": "exchange species differs after the round trip"}
             return out
-    if set(mc.moves) != set(mc2.moves):
-        out["violation"] = {"kind": f"sim-moves-lost:{case['driver']}", "detail": f"move table {sorted(mc.moves)} -> {sorted(mc2.moves)}"}
+    if list(mc.moves) != list(mc2.moves):
+        out["violation"] = {"kind": f"sim-moves-lost:{case['driver']}", "detail": f"move table (ordered) {list(mc.moves)} -> {list(mc2.moves)}"}
         return out
+    for nm in mc.moves:
+        a, b = mc.moves[nm], mc2.moves[nm]
+        for fld in ("interval", "probability", "minimum_count"):
+            if getattr(a, fld) != getattr(b, fld):
+                out["violation"] = {"kind": f"sim-table-entry:{fld}", "detail": f"{case['driver']}: entry {nm!r}: {fld} {getattr(a, fld)!r} -> {getattr(b, fld)!r} after the round trip"}
+                return out
+        if type(a.move) is not type(b.move) or type(a.criteria) is not type(b.criteria):
+            out["violation"] = {"kind": "sim-table-entry:type", "detail": f"{case['driver']}: entry {nm!r}: {type(a.move).__name__}/{type(a.criteria).__name__} -> {type(b.move).__name__}/{type(b.criteria).__name__}"}
+            return out
     with warnings.catch_warnings():
         warnings.simplefilter("ignore")
         r = same(jsonable_dict(d), jsonable_dict(mc2.to_dict()), "dict")
